@@ -22,7 +22,7 @@ CHECKS = {
     design="4/C04", technique="TLA+ group walk carrying (m, m^-1) (TLC exhaustive) + replay of states/edges into compose/inverse, trace validated by TLC"),
  "C05": dict(
     text="TableauOK/DensityOK are evaluated by TLC on every tableau the library hands back: one-step closure over the complete valid tableau space for N<=2 (48 / 34560 tableaux in thorough; VERIF_SEED sample in quick) x every public state-changing call (rotations, masked rotations, map transforms, named gates, measurements, post-selections, copy, set_r), with the post-state also required to denote the group the semantics prescribes; TLC-simulated histories (MC_TabWalk, N=2..5) are replayed on one live object, steering coins to the outcome TLC chose. The abstract semantics is grounded in density matrices (Tr rho = 1, rho^2 = 2^-r rho) by MC_StabSem. Also: gate programs through circuits in every compile mode on N=3 tableaux, and relabelled onto qubits around index 64 of 64..70-qubit registers (tableau invariant evaluated by TLC); L2: the transcribed measure/project algorithms of Tableau.tla are compared bit for bit (model drift).",
-    note="Closure claim only in thorough. Standby/destabilizer phases are not constrained (never read into active rows).",
+    note="Closure claim only in thorough. Every row of every tableau handed back must keep a Hermitian phase (StepsHermOK): standby rows and destabilizers become map images through to_map() / diagonalize().",
     design="4/C05", technique="TLA+ signed-group semantics grounded in matrices (TLC) + one-step closure of the real code over all valid tableaux + replay of TLC-simulated histories, trace validated by TLC"),
  "C06": dict(
     text="SemMeasure (Born rule + projection on signed stabilizer groups) is grounded by TLC in density matrices for all 91 N=2 states x 32 observables x 2 outcomes; the real measure() is run on every tableau (N<=2 complete in thorough) x every signed observable, commuting lists, state arguments, under enumerated coin schedules until every outcome of non-zero probability is seen; TLC checks outcome possible, log2prob, post-state = projection, rank, repeatability, and that exactly the possible outcome vectors occur. Also: observable lists made of arbitrary group elements (dependent entries) on mixed states; coin schedules 40 x branches. Entangled blocks on the last qubits of 66..71-qubit mixed registers (observables on both sides of qubit 64). State arguments drawn (not strided) over all ranks and sign patterns.",
